@@ -13,6 +13,13 @@ Theorem C08_crash_safe_create : forall (ps : list piece) (s0 : fs) (k : nat),
 Proof. exact crash_safe_create. Qed.
 Print Assumptions C08_crash_safe_create.
 
+(* ... and the complete new catalog is readable and holds, patch by patch, the records handed to the writers *)
+Theorem C08_create_complete : forall (strict : bool) (ps : list piece) (s0 : fs),
+  ps <> [] -> (forall pc, In pc ps -> snd pc <> []) ->
+  recover_cat strict (apply (ops_create ps) s0) = Ok (map (fun i => (i, recs_for ps i)) (created_ids ps)).
+Proof. exact create_complete. Qed.
+Print Assumptions C08_create_complete.
+
 (* overwrite of a complete catalog, for EVERY order in which rmtree removes the old entries *)
 Theorem C08_crash_safe_overwrite : forall (l : list (path * content)) (order : list path) (ps : list piece) (k : nat),
   wf_cat (fs_of l) -> valid_order_b l order = true ->
